@@ -302,7 +302,12 @@ pub fn link_cores(cores: Vec<CoreUnit>) -> Result<LinkOutput, CompilationError> 
         ));
     }
 
-    for (pkg, unit) in by_name.iter() {
+    // `by_name` is a HashMap: visit the packages in name order so that, when several packages
+    // are stale, the same one is reported in every process.
+    let mut checked_packages: Vec<&String> = by_name.keys().collect();
+    checked_packages.sort();
+    for pkg in checked_packages {
+        let unit = &by_name[pkg];
         for (dep, expected_hash) in unit.deps.iter() {
             let Some(dep_unit) = by_name.get(dep) else {
                 return Err(compile_error(format!(
